@@ -36,6 +36,20 @@ def expect(tables, s):
     for (p, clk, mcv, pl) in s.events:
         if mcv[:2] in ("OH", "OA"):
             continue
+        if mcv in ("OF[", "OF]"):
+            # the flush region of the base model: a single-value channel, enter sets "flushing", leave clears it; a
+            # leave without an enter and an enter inside an enter are refused (the channel refuses an equal value)
+            fl = stacks.setdefault((p, "ovni", "flush"), [])
+            if mcv == "OF[":
+                if fl:
+                    return False, shown
+                fl.append(1)
+            else:
+                if not fl:
+                    return False, shown
+                fl.pop()
+            shown.append((clk, 7, 1 if fl else 0, p))
+            continue
         d = id2dir.get(mcv[0])
         t = tab.get((d, mcv[1], mcv[2]))
         if t is None:
@@ -201,6 +215,22 @@ def run(chk):
                     scs.append(s)
                     nl += 1
     chk.count("multi_thread_lint_cases", nl)
+
+    # ---- the flush region of the base model (OF[ OF]), also as the very first events of a trace
+    nf = 0
+    for shape in (["OHx", "OF[", "OF]", "OHe"], ["OHx", "OF]", "OHe"], ["OHx", "OF[", "OF]", "OF]", "OHe"], ["OHx", "OF[", "OF[", "OF]", "OHe"],
+                  ["OF[", "OF]", "OHx", "OF[", "OF]", "OHe"], ["OF[", "OHx", "OF]", "OF[", "OF]", "OHe"], ["OF]", "OHx", "OHe"],
+                  ["OHx", "OF[", "OF]", "OF[", "OF]", "OF[", "OF]", "OHe"], ["OHx", "OHp", "OF[", "OF]", "OHr", "OHe"]):
+        for start in (10, 0):
+            s = one_thread(tables, "ovni")
+            s.events = []
+            clk = start
+            for mcv in shape:
+                s.events.append((0, clk, mcv, (i32(0) + i32(101) + i32(0)) if mcv == "OHx" else b""))
+                clk += 7
+            scs.append(s)
+            nf += 1
+    chk.count("flush_region_cases", nf)
 
     real = emucore.run_real(build, scs)
     model = emucore.run_oracle(oracle, scs) if oracle else [None] * len(scs)
